@@ -456,6 +456,35 @@ func runCacheConcurrent(o *Outcome, sc *CacheScn, d *cacheDriver, m *cModel, att
 			return fmt.Sprintf("%+v -> %+v", in.(cacheIn).op, out)
 		},
 	}
+	// relaxed reference used only to classify a failure: a hit may or may not refresh recency
+	stateEq := model.Equal
+	relaxed := (&porcupine.NondeterministicModel{
+		Init: func() []any { return []any{m.clone()} },
+		Step: func(state, in, out any) []any {
+			i, ou := in.(cacheIn), out.(cacheOut)
+			st := state.(*cModel).clone()
+			if i.op.Op != "get" {
+				modelApply(st, i.op, 0, attr)
+				return []any{st}
+			}
+			k := cacheKeys[i.op.Key%len(cacheKeys)]
+			idx := st.find(k)
+			if idx < 0 {
+				if ou.hit {
+					return nil
+				}
+				return []any{st}
+			}
+			e := st.entries[idx]
+			if !ou.hit || ou.neg != e.neg || (!e.neg && ou.val != e.val) {
+				return nil
+			}
+			bumped := st.clone()
+			bumped.touch(idx)
+			return []any{st, bumped}
+		},
+		Equal: stateEq,
+	}).ToModel()
 	o.Checks++
 	switch porcupine.CheckOperationsTimeout(model, ops, 20*time.Second) {
 	case porcupine.Illegal:
@@ -464,7 +493,11 @@ func runCacheConcurrent(o *Outcome, sc *CacheScn, d *cacheDriver, m *cModel, att
 		for _, op := range ops {
 			desc = append(desc, fmt.Sprintf("c%d[%d,%d] %s", op.ClientId, op.Call, op.Return, model.DescribeOperation(op.Input, op.Output)))
 		}
-		o.Vio("C21.not-linearizable", "target="+sc.Target, "concurrent history is not linearizable w.r.t. the TTL-LRU reference:\n%s", strings.Join(desc, "\n"))
+		cause := "cause=other"
+		if porcupine.CheckOperationsTimeout(relaxed, ops, 20*time.Second) == porcupine.Ok {
+			cause = "cause=hit-does-not-refresh-recency-atomically"
+		}
+		o.Vio("C21.not-linearizable", "target="+sc.Target+","+cause, "concurrent history is not linearizable w.r.t. the TTL-LRU reference (%s):\n%s", cause, strings.Join(desc, "\n"))
 	case porcupine.Unknown:
 		simrt.Probe("porcupine_timeout")
 	}
